@@ -19,7 +19,7 @@ ASSUMPTIONS = ["a sample's cell along a feature = number of cut points below its
 EVAL_COUNTER = "fits"
 REQUIRED = {"quick": {"fits": 250, "binning_calls_checked": 5000, "masked_fits": 60, "mask_perturbations": 120,
                       "cells_compared": 1500, "active_point_queries": 4000, "active_queries_between_cuts": 300,
-                      "fits_multi_cut": 120},
+                      "fits_multi_cut": 120, "cells_matched_to_leaves": 700},
             "thorough": {"fits": 5000, "active_point_queries": 90000}}
 SHARD_TIMEOUT = {"quick": 1200, "thorough": 7000}
 
@@ -176,9 +176,28 @@ def run_case(case, ctx, st):
                 ctx.violation("cells", "predictions-not-constant-inside-cell", observed={"cell": cidx, "rows": rows[:4], "cuts": {k: v for k, v in cuts.items()}},
                               expected="equal rows")
                 break
-        # different cells are told apart through the leaf scores: the cell -> leaf mapping must be injective
-        if len(by_cell) >= 2 and want_leaves >= 2:
+        # different cells are told apart through the leaf scores: at (nearly) zero temperature every cell shows the
+        # soft-max of ONE row of leaf_scores_, and two cells never show the same row (one leaf per cell of the grid) -
+        # whatever the convention that numbers the leaves
+        if len(by_cell) >= 2 and want_leaves >= 2 and np.all(np.isfinite(Pc)):
             ctx.count("multi_cell_fits")
+            S = gen.softmax(np.asarray(est.leaf_scores_, dtype=float))
+            sep = min((float(np.max(np.abs(S[a] - S[b]))) for a in range(len(S)) for b in range(a + 1, len(S))), default=1.0) if len(S) <= 64 else 0.0
+            seen = {}
+            for cidx, rows in by_cell.items():
+                row = np.asarray(rows[0])
+                dists = np.max(np.abs(S - row), axis=1)
+                leaf = int(np.argmin(dists))
+                ctx.count("cells_matched_to_leaves")
+                if dists[leaf] > 1e-6:
+                    ctx.violation("cells", "cell-prediction-is-no-leaf-score", observed={"cell": cidx, "row": row, "closest_leaf": leaf, "distance": float(dists[leaf])},
+                                  expected="soft-max of one row of leaf_scores_")
+                    break
+                if sep > 1e-4 and leaf in seen:
+                    ctx.violation("cells", "two-cells-share-one-leaf", observed={"cells": [seen[leaf], cidx], "leaf": leaf, "cuts": {k: v for k, v in cuts.items()}},
+                                  expected="one leaf per cell")
+                    break
+                seen[leaf] = cidx
     # find_active_points
     for q in range(20):
         m = int(rng.integers(1, 12))
